@@ -563,6 +563,39 @@ fn run(ctx: &mut Ctx) {
         });
     }
     derived(ctx, &arena);
+    // large declared sizes: element counts on both sides of 2^12, 2^16 and 2^20
+    ctx.bound("large_sizes", "per DST kind: declared sizes B-1, B, B+1 and the nearest sizes FIXED + k*ELEM below and above B, for B in {4096, 65536, 2^20} (quick: without 2^20); tag-level seam, tag physically present and flush against a guard page");
+    let huge = Arena::new(270);
+    for kind in KINDS.iter() {
+        for b in [4096usize, 65536, 1 << 20] {
+            if b > 65536 && ctx.quick() {
+                continue;
+            }
+            let k = (b - kind.fixed) / kind.elem;
+            let mut szs = vec![b - 1, b, b + 1, kind.fixed + k * kind.elem, kind.fixed + (k + 1) * kind.elem, kind.fixed + (k - 1) * kind.elem];
+            szs.sort_unstable();
+            szs.dedup();
+            for size in szs {
+                let fbvar = 0xFFu8;
+                let img = image(kind, size as u32, round8(size) - 8, fbvar);
+                let describe = || J::obj().set("seam", "tag-large").set("kind", kind.name).set("declared_size", size);
+                ctx.leaf(describe, |ctx| {
+                    ctx.state_direct();
+                    ctx.nontrivial();
+                    huge.fill(arena::FILL_A);
+                    let p = huge.place_right(&img);
+                    let slice: &[u8] = unsafe { std::slice::from_raw_parts(p, img.len()) };
+                    match ctx.call("ref_from_slice", || Generic::ref_from_slice(slice)) {
+                        Out::Val(Ok(g)) => {
+                            let r = ctx.call("cast+accessors", || view_of(kind, g, fbvar));
+                            check_view(ctx, kind, size, fbvar, r, "tag-large");
+                        }
+                        _ => ctx.violation(&format!("c05/rfs-error/{}", kind.name), || format!("ref_from_slice refused size {} on a slice of {} bytes", size, img.len())),
+                    }
+                });
+            }
+        }
+    }
 }
 
 fn main() {
